@@ -25,6 +25,8 @@ import (
 //	    executor replaces by the real operation text.  Prints `ok - <bits over the rows>`.
 //	    The truth vectors (per atom, over the rows) are computed by the generator from the row
 //	    values, not by the code under test.
+//	D <case>
+//	    the k or r case <case>, executed with ast.EnableQueryDebug switched on: same output.
 //	x <hex text> <truth vectors>
 //	    a damaged spelling (whitespace removed where the grammar demands it, words split or
 //	    glued, parentheses dropped or doubled, reserved or keyword-like words as atoms, `not` +
@@ -281,87 +283,6 @@ func c12ExecSkeleton(n int, sk string) string {
 
 // ---------------------------------------------------------------- r cases: rows and atoms
 
-// a row of the table the operation atoms are evaluated on.  Every scalar field can be NULL / absent
-// on a row (nNull, sNull, flagNull, gNull); `tags` is a set field (possibly empty).
-type c12Row struct {
-	n    int64
-	s    string
-	flag bool
-	g    bool
-
-	nNull, sNull, flagNull, gNull bool
-	tags                          []string
-}
-
-var c12Rows = []c12Row{
-	{n: 1, s: "x", flag: true, g: false, tags: []string{"a"}},
-	{n: 3, s: "xy", flag: false, g: true, tags: []string{"a", "b"}},
-	{n: 4, s: "", flag: true, g: true},
-	{n: 7, s: "a and b", flag: false, g: false, tags: []string{"b"}},
-	{n: 2, s: "y", flag: true, g: false, tags: []string{"c", "a"}},
-	{n: 3, s: "X", flag: true, g: true},
-	{n: 5, s: "(x)", flag: false, g: true, tags: []string{"b", "c"}},
-	{n: 0, s: "or", flag: false, g: false},
-	// rows on which fields are NULL / absent: an atom over such a field is neither "present and
-	// true" nor "present and false" - a comparison with a null operand is false (`!=`: true), and so
-	// is its complementary comparison; `not (P)` must still negate whatever P evaluates to
-	{nNull: true, s: "x", flag: true, g: false, tags: []string{"a"}},
-	{n: 3, sNull: true, flag: false, g: true},
-	{nNull: true, sNull: true, flagNull: true, gNull: true},
-	{n: 1, s: "y", flagNull: true, g: true, tags: []string{"b"}},
-	{n: 5, s: "xy", flag: true, gNull: true},
-	{nNull: true, sNull: true, flag: false, g: true, tags: []string{"a", "b", "c"}},
-}
-
-type c12Atom struct {
-	variants []string
-	truth    func(r c12Row) bool
-}
-
-// truth of the operation atoms as the generator knows it from the row values (not from the code
-// under test).  Null rule of the typed comparisons (ast/node_expr.go): a null operand makes =, <,
-// <=, >, >=, contains, icontains, in, between false and != / not contains / not icontains true;
-// `not in` / `not between` are built as NOT(in) / NOT(between); a null bool symbol is false.
-func c12Has(set []string, v string) bool {
-	for _, x := range set {
-		if x == v {
-			return true
-		}
-	}
-	return false
-}
-
-// operation atoms with generator-known truth; variants differ in operator case / inner spacing
-var c12Atoms = map[byte]c12Atom{
-	'a': {[]string{"flag"}, func(r c12Row) bool { return !r.flagNull && r.flag }},
-	'b': {[]string{"g"}, func(r c12Row) bool { return !r.gNull && r.g }},
-	'c': {[]string{"n = 3", "n=3", "n  =\t3"}, func(r c12Row) bool { return !r.nNull && r.n == 3 }},
-	'd': {[]string{`s contains "x"`, `s CONTAINS "x"`, "s cOnTaInS \t \"x\""}, func(r c12Row) bool { return !r.sNull && strings.Contains(r.s, "x") }},
-	'e': {[]string{"n in [1, 2]", "n IN [1,2]", "n iN [ 1 ,\n2 ]"}, func(r c12Row) bool { return !r.nNull && (r.n == 1 || r.n == 2) }},
-	'f': {[]string{"n between 2 and 5", "n BETWEEN 2 AND 5", "n BeTwEeN  2 \taNd\n5"}, func(r c12Row) bool { return !r.nNull && r.n >= 2 && r.n < 5 }},
-	'g': {[]string{`s not contains "y"`, `s NOT CONTAINS "y"`, "s Not \t Contains \"y\""}, func(r c12Row) bool { return r.sNull || !strings.Contains(r.s, "y") }},
-	'h': {[]string{"n not in [3]", "n NOT IN [3]", "n nOt\tiN [3]"}, func(r c12Row) bool { return r.nNull || r.n != 3 }},
-	'i': {[]string{`s = "a and b"`, `s="a and b"`}, func(r c12Row) bool { return !r.sNull && r.s == "a and b" }},
-	'j': {[]string{`s icontains "X"`, `s ICONTAINS "X"`, `s iCoNtAiNs  "X"`}, func(r c12Row) bool { return !r.sNull && strings.Contains(strings.ToLower(r.s), "x") }},
-	'k': {[]string{"n >= 3", "n>=3"}, func(r c12Row) bool { return !r.nNull && r.n >= 3 }},
-	'l': {[]string{`s != "(x)"`, `s!="(x)"`}, func(r c12Row) bool { return r.sNull || r.s != "(x)" }},
-	'm': {[]string{"n not between 1 and 4", "n NOT BETWEEN 1 AND 4", "n NoT   bEtWeEn 1 AND 4"}, func(r c12Row) bool { return r.nNull || !(r.n >= 1 && r.n < 4) }},
-	'n': {[]string{`s in ["or", "x"]`, `s IN ["or","x"]`}, func(r c12Row) bool { return !r.sNull && (r.s == "or" || r.s == "x") }},
-	// ordering comparisons (false on a null operand - and so is the complementary comparison)
-	'o': {[]string{"n < 4", "n<4", "n <\t4"}, func(r c12Row) bool { return !r.nNull && r.n < 4 }},
-	'p': {[]string{"n <= 3", "n<=3"}, func(r c12Row) bool { return !r.nNull && r.n <= 3 }},
-	'q': {[]string{"n > 2", "n>2", "n  >  2"}, func(r c12Row) bool { return !r.nNull && r.n > 2 }},
-	'r': {[]string{`s < "y"`, `s<"y"`}, func(r c12Row) bool { return !r.sNull && r.s < "y" }},
-	's': {[]string{`s >= "x"`, `s>="x"`, "s >=\n\"x\""}, func(r c12Row) bool { return !r.sNull && r.s >= "x" }},
-	't': {[]string{"n != 3", "n!=3"}, func(r c12Row) bool { return r.nNull || r.n != 3 }},
-	'u': {[]string{"flag = true", "flag=TRUE", "flag = tRuE"}, func(r c12Row) bool { return !r.flagNull && r.flag }},
-	'v': {[]string{"g != true", "g!=True"}, func(r c12Row) bool { return r.gNull || !r.g }},
-	// set functions (the set can be empty)
-	'w': {[]string{`anyOf(tags) = "a"`, `ANYOF(tags)="a"`, `anyof( tags ) = "a"`}, func(r c12Row) bool { return c12Has(r.tags, "a") }},
-	'x': {[]string{"isEmpty(tags)", "ISEMPTY( tags )", "isempty(tags)"}, func(r c12Row) bool { return len(r.tags) == 0 }},
-	'y': {[]string{`allOf(tags) != "b"`, `ALLOF(tags)!="b"`, `allOf( tags ) != "b"`}, func(r c12Row) bool { return !c12Has(r.tags, "b") }},
-}
-
 func c12AtomLetters() []byte {
 	var ls []byte
 	for k := range c12Atoms {
@@ -378,106 +299,6 @@ var c12ExtraWords = []string{"index", "inside", "containsx", "icontainsy", "betw
 // reserved words: never an atom
 var c12Reserved = []string{"null", "sort", "by", "skip", "limit", "none", "where", "from", "asc", "desc", "allof",
 	"anyof", "count", "isempty", "in", "contains", "icontains", "between", "NULL", "Sort", "IN", "Between"}
-
-func c12RowSymbols(r c12Row) *memSymbols {
-	syms := newMemSymbols()
-	for _, w := range c12ExtraWords {
-		syms.types[w] = ast.NodeTypeBool
-		syms.scalars[w] = false
-	}
-	syms.types["flag"] = ast.NodeTypeBool
-	syms.types["g"] = ast.NodeTypeBool
-	syms.types["n"] = ast.NodeTypeInt64
-	syms.types["s"] = ast.NodeTypeString
-	syms.types["tags"] = ast.NodeTypeString
-	syms.sets["tags"] = true
-	syms.setVals["tags"] = r.tags
-	// a NULL / absent field: no entry, every Eval* answers nil and IsNil answers true
-	if !r.flagNull {
-		syms.scalars["flag"] = r.flag
-	}
-	if !r.gNull {
-		syms.scalars["g"] = r.g
-	}
-	if !r.nNull {
-		syms.scalars["n"] = r.n
-	}
-	if !r.sNull {
-		syms.scalars["s"] = r.s
-	}
-	return syms
-}
-
-// replace placeholders x<letter>_<variant letter> (as whole words) by the operation text; any
-// other word stays as it is
-func c12Substitute(text string) (string, bool) {
-	isWordChar := func(c byte) bool { return c == '_' || (c >= 'a' && c <= 'z') || (c >= 'A' && c <= 'Z') }
-	var b strings.Builder
-	for i := 0; i < len(text); {
-		if !isWordChar(text[i]) {
-			b.WriteByte(text[i])
-			i++
-			continue
-		}
-		j := i
-		for j < len(text) && isWordChar(text[j]) {
-			j++
-		}
-		w := text[i:j]
-		if a, ok := c12Atoms[w[min(1, len(w)-1)]]; ok && len(w) == 4 && w[0] == 'x' && w[2] == '_' && w[3] >= 'a' && w[3] <= 'z' {
-			b.WriteString(a.variants[int(w[3]-'a')%len(a.variants)])
-		} else {
-			b.WriteString(w)
-		}
-		i = j
-	}
-	return b.String(), true
-}
-
-// c12AnySymbols: every identifier that is not a field of the row is a boolean symbol that is false
-type c12AnySymbols struct {
-	*memSymbols
-	cursors map[string]ast.SetCursor
-}
-
-func (m c12AnySymbols) GetSymbolType(name string) (ast.NodeType, bool) {
-	if t, ok := m.memSymbols.GetSymbolType(name); ok {
-		return t, true
-	}
-	return ast.NodeTypeBool, true
-}
-func (m c12AnySymbols) IsSet(name string) (bool, bool) { return m.memSymbols.sets[name], true }
-
-// the element a set function's predicate is evaluated on is the current element of the cursor
-// that was opened last for the set (AnyOfSetExprNode / AllOfSetExprNode.EvalBool)
-func (m c12AnySymbols) OpenSetCursor(name string) ast.SetCursor {
-	c := m.memSymbols.OpenSetCursor(name)
-	m.cursors[name] = c
-	return c
-}
-func (m c12AnySymbols) OpenSetCursorForQuery(name string, _ ast.Query) ast.SetCursor {
-	return m.OpenSetCursor(name)
-}
-func (m c12AnySymbols) EvalString(name string) *string {
-	if m.memSymbols.sets[name] {
-		if c, ok := m.cursors[name]; ok && c.IsValid() {
-			v := string(c.Current())
-			return &v
-		}
-		return nil
-	}
-	return m.memSymbols.EvalString(name)
-}
-func (m c12AnySymbols) IsNil(name string) bool {
-	if m.memSymbols.sets[name] {
-		return m.EvalString(name) == nil
-	}
-	return m.memSymbols.IsNil(name)
-}
-
-func c12Any(r c12Row) c12AnySymbols {
-	return c12AnySymbols{memSymbols: c12RowSymbols(r), cursors: map[string]ast.SetCursor{}}
-}
 
 func c12ExecRespelled(spelled string) string {
 	text, ok := c12Substitute(spelled)
@@ -502,6 +323,17 @@ func c12ExecRespelled(spelled string) string {
 func c12Exec(line string) string {
 	f := fields(line)
 	switch f[0] {
+	case "D":
+		if len(f) < 2 || f[1] == "D" {
+			return "bad-case"
+		}
+		return c12ExecDebug(strings.TrimPrefix(line, "D "))
+	case "S": // show: the text of a spelled r / x case with the placeholders replaced (for reports)
+		if len(f) != 2 {
+			return "bad-case"
+		}
+		text, _ := c12Substitute(fromWire(f[1]))
+		return "text " + toWire(text)
 	case "k":
 		if len(f) != 3 {
 			return "bad-case"
@@ -602,8 +434,7 @@ func c12Spell(r *rng, l *c12Level, b *strings.Builder) {
 		case u.atom == "F":
 			b.WriteString(c12Case(r, "false"))
 		default:
-			a := c12Atoms[u.atom[0]]
-			fmt.Fprintf(b, "x%c_%c", u.atom[0], 'a'+r.intn(len(a.variants)))
+			fmt.Fprintf(b, "x%c_%c", u.atom[0], 'a'+r.intn(c12AtomVariants))
 		}
 	}
 }
@@ -937,6 +768,8 @@ func c12Gen(tier string, seed uint64, out *bufio.Writer) {
 	// 4c. negated atoms (c12_negatoms.go): every operation atom under `not` in every position, over
 	//     rows with NULL fields and empty sets; own random stream
 	c12GenNegAtoms(tier, seed, out)
+	// 4d. a sample of k / r cases once more under ast.EnableQueryDebug = true (c12_config.go)
+	c12GenConfig(tier, seed, out)
 	// 5. re-spellings of mixed queries
 	nR := 1800
 	if thorough {
